@@ -127,3 +127,147 @@ def run(u, r, ob, trace):
             prev_end = pos
     return {'reproduced': bool(problems), 'recipe': 'layout', 'inputs': {'parameter_list': spec, 'fixed_sizes': fs, 'varying_counts': vc, 'base_offset_multiplier': k},
             'native_output': p.stdout[-1500:], 'mismatches': problems}
+
+
+# ---------------------------------------------------------------- recipe `history` (units vec.*)
+def _hist_prog(L, F, op, prm):
+    P = L.params; n = len(P)
+    ps = ', '.join(p.cxx().replace('vf::B<', 'RB<') for p in P)
+    POCCA, POCMA, POCS, AE = F & 1, F & 2, F & 4, F & 8
+    # per ordinal o: argument construction and check of stored content
+    mk = []; args = []; chk = []
+    for i, p in enumerate(P):
+        vt = p.value_type().replace('vf::B<', 'RB<')
+        if p.kind == 'c':
+            if i + 1 < n and P[i + 1].kind == 'v':
+                mk.append('%s a%d = (%s)CNT(o, %d);' % (vt, i, vt, i + 1)); chk.append('ok &= (std::uint64_t)cntgs::get<%d>(r) == CNT(o, %d);' % (i, i + 1))
+            else:
+                mk.append('%s a%d = (%s)(o * 7 + %d);' % (vt, i, vt, i)); chk.append('ok &= cntgs::get<%d>(r) == (%s)(o * 7 + %d);' % (i, vt, i))
+            args.append('a%d' % i)
+        elif p.kind == 'p':
+            mk.append('%s a%d; std::memset(&a%d, (int)PAT(o, %d, 0), sizeof a%d);' % (vt, i, i, i, i)); args.append('a%d' % i)
+            chk.append('ok &= *reinterpret_cast<const unsigned char*>(&cntgs::get<%d>(r)) == PAT(o, %d, 0);' % (i, i))
+        else:
+            cnt = ('FS[%d]' % sum(1 for q in P[:i] if q.kind == 'f')) if p.kind == 'f' else 'CNT(o, %d)' % i
+            mk.append('std::vector<%s> s%d(%s + 1); for (std::size_t j = 0; j < %s; ++j) std::memset(&s%d[j], (int)PAT(o, %d, j), sizeof(%s));' % (vt, i, cnt, cnt, i, i, vt))
+            args.append(('s%d.data()' % i) if p.kind == 'f' else 'cntgs::Span<const %s>(s%d.data(), s%d.data() + %s)' % (vt, i, i, cnt))
+            chk.append('ok &= cntgs::get<%d>(r).size() == %s; for (std::size_t j = 0; j < %s && j < cntgs::get<%d>(r).size(); ++j) ok &= *reinterpret_cast<const unsigned char*>(&cntgs::get<%d>(r)[j]) == PAT(o, %d, j);' % (i, cnt, cnt, i, i, i))
+    fsinit = ', '.join(str(x) for x in prm['fs'])
+    if L.is_varying() and L.nfixed: ctor = lambda nm, cap, al: 'V %s{%s, BUDGET(%s), {%s}, %s};' % (nm, cap, cap, fsinit, al)
+    elif L.is_varying(): ctor = lambda nm, cap, al: 'V %s{%s, BUDGET(%s), %s};' % (nm, cap, cap, al)
+    elif L.nfixed: ctor = lambda nm, cap, al: 'V %s{%s, {%s}, %s};' % (nm, cap, fsinit, al)
+    else: ctor = lambda nm, cap, al: 'V %s{%s};' % (nm, cap)
+    maxpay = sum(p.size * 3 for p in P if p.kind == 'v')
+    body = {
+        'pop_back': 'v.pop_back(); m.pop_back(); NOALLOC; SAMEBLOCK;',
+        'clear': 'v.clear(); m.clear(); NOALLOC; SAMEBLOCK; if (v.data_begin() != v.data_end()) fail("data_begin() != data_end() after clear()");',
+        'erase': 'auto it = v.erase(v.begin() + POS); m.erase(m.begin() + POS); if (it.index() != POS) fail("erase returned the wrong iterator"); NOALLOC; SAMEBLOCK;',
+        'erase_range': 'auto it = v.erase(v.begin() + FIRST, v.begin() + LAST); m.erase(m.begin() + FIRST, m.begin() + LAST); if (it.index() != FIRST) fail("erase returned the wrong iterator"); NOALLOC; SAMEBLOCK;',
+        'emplace_back': 'if (v.size() < v.capacity()) { emplace(v, 90); m.push_back(90); NOALLOC; SAMEBLOCK; }',
+        'reserve': 'v.reserve(NEWN, BUDGET(NEWN)); if (NEWN <= CAP) { NOALLOC; SAMEBLOCK; if (v.capacity() != CAP) fail("reserve within capacity changed capacity()"); } else { if (v.capacity() != NEWN) fail("capacity() != n after reserve"); while (v.size() < v.capacity()) { emplace(v, 50 + (int)v.size()); m.push_back(50 + (int)m.size()); } }',
+        'swap': 'swap(v, w); std::swap(m, mw); std::swap(capv, capw); NOALLOC;',
+        'copy_ctor': 'V c{v}; if (c.size() != v.size()) fail("copy has a different size()"); if (c.capacity() != v.capacity()) fail("copy has a different capacity()"); if (c.size() && c.data_begin() == v.data_begin()) fail("copy shares storage"); check(c, m, "copy"); if (c.memory_consumption() > v.memory_consumption()) fail("copy consumes more than the source");',
+        'copy_assign': 'std::size_t before = v.memory_consumption(); v = w; m = mw; capv = capw; check(w, mw, "source after copy assignment"); if (v.memory_consumption() > std::max(before, w.memory_consumption())) fail("target consumes more than it did and more than the source");',
+        'move_assign': 'std::size_t before = v.memory_consumption(), src = w.memory_consumption(); v = std::move(w); m = mw; capv = capw; if (v.memory_consumption() > std::max(before, src)) fail("target consumes more than it did and more than the source did"); while (v.size() < v.capacity()) { emplace(v, 60 + (int)v.size()); m.push_back(60 + (int)m.size()); }',
+        'move_ctor': 'V c{std::move(v)}; NOALLOC; check(c, m, "move-constructed vector"); if (c.capacity() != CAP) fail("capacity not transferred"); return g_bad; /* the moved-from vector is only required to be destructible/assignable */',
+    }.get(op)
+    if body is None:
+        return None
+    return '''#include <cntgs/contiguous.hpp>
+#include <cstdio>
+#include <cstdlib>
+#include <cstring>
+#include <vector>
+#include <algorithm>
+template <unsigned N> struct RB { unsigned char b[N]; };
+static long g_allocs = 0; static int g_bad = 0; static const std::size_t RZ = 128;
+struct Blk { unsigned char* p; std::size_t n; }; static std::vector<Blk> g_blks;
+static void fail(const char* what) { std::printf("MISMATCH %%s\\n", what); g_bad = 1; }
+template <class T> struct A { using value_type = T; int id; A(int i = 0) : id(i) {} template <class U> A(const A<U>& o) : id(o.id) {}
+  using propagate_on_container_copy_assignment = std::bool_constant<%(pocca)d>; using propagate_on_container_move_assignment = std::bool_constant<%(pocma)d>;
+  using propagate_on_container_swap = std::bool_constant<%(pocs)d>; using is_always_equal = std::bool_constant<%(ae)d>;
+  T* allocate(std::size_t n) { ++g_allocs; std::size_t bytes = n * sizeof(T); unsigned char* raw = (unsigned char*)std::aligned_alloc(4096, ((bytes + 2 * RZ + 8192) / 4096 + 1) * 4096);
+    unsigned char* p = raw + 4096 + alignof(T); std::memset(raw, 0xA5, 4096 + alignof(T)); std::memset(p, 0x5A, bytes); std::memset(p + bytes, 0xA5, RZ); g_blks.push_back({p, bytes}); return (T*)p; }
+  void deallocate(T* p, std::size_t) { (void)p; }
+  friend bool operator==(const A& a, const A& b) { return %(ae)d || a.id == b.id; } friend bool operator!=(const A& a, const A& b) { return !(a == b); } };
+using V = cntgs::BasicContiguousVector<cntgs::Options<cntgs::Allocator<A<char>>>, %(ps)s>;
+static const std::size_t FS[] = {%(fsinit)s 0};
+static std::size_t CNT(int o, int field) { return (std::size_t)((o * 3 + field * 5 + 1) %% 4); }
+static unsigned char PAT(int o, int field, std::size_t j) { return (unsigned char)(1 + (o * 31 + field * 7 + j * 3) %% 250); }
+static std::size_t BUDGET(std::size_t cap) { return cap * %(maxpay)d; }
+static void emplace(V& v, int o) { %(mk)s v.emplace_back(%(args)s); }
+static void check(const V& v, const std::vector<int>& m, const char* who) {
+  if (v.size() != m.size()) { std::printf("MISMATCH %%s: size() == %%zu, sequence model has %%zu\\n", who, v.size(), m.size()); g_bad = 1; return; }
+  if (v.empty() != m.empty()) fail("empty() disagrees with size()");
+  for (std::size_t i = 0; i < m.size(); ++i) { int o = m[i]; auto r = v[i]; bool ok = true; %(chk)s if (!ok) { std::printf("MISMATCH %%s: element %%zu does not hold the values of the element emplaced as #%%d\\n", who, i, o); g_bad = 1; } }
+  if ((std::size_t)(v.data_end() - v.data_begin()) > v.memory_consumption()) fail("data_end() - data_begin() > memory_consumption()");
+}
+int main() {
+  const std::size_t CAP = %(cap)d, SIZE = %(size)d, POS = %(pos)d, FIRST = %(first)d, LAST = %(last)d, NEWN = %(newn)d, CAPW = %(capo)d, SIZEW = %(sizeo)d;
+  (void)POS; (void)FIRST; (void)LAST; (void)NEWN; (void)CAPW; (void)SIZEW;
+  %(ctor_v)s std::vector<int> m; for (std::size_t i = 0; i < SIZE; ++i) { emplace(v, (int)i); m.push_back((int)i); }
+  %(ctor_w)s std::vector<int> mw; for (std::size_t i = 0; i < SIZEW; ++i) { emplace(w, 20 + (int)i); mw.push_back(20 + (int)i); }
+  std::size_t capv = CAP, capw = CAPW; (void)capw;
+  const long allocs0 = g_allocs; const std::byte* base0 = v.data_begin(); (void)base0;
+#define NOALLOC do { if (g_allocs != allocs0) fail("the operation requested memory from the allocator"); } while (0)
+#define SAMEBLOCK do { if (v.data_begin() != base0) fail("data_begin() changed"); if (v.capacity() != capv) fail("capacity() changed"); } while (0)
+  %(body)s
+  check(v, m, "vector after the operation");
+  for (auto& b : g_blks) { for (std::size_t i = 0; i < RZ; ++i) if (b.p[b.n + i] != 0xA5 || (i < 8 && b.p[-(long)i - 1] != 0xA5)) { fail("bytes outside an allocator block were written"); break; } }
+  return g_bad;
+}
+''' % dict(ps=ps, pocca=1 if POCCA else 0, pocma=1 if POCMA else 0, pocs=1 if POCS else 0, ae=1 if AE else 0, fsinit=(fsinit + ',') if fsinit else '', maxpay=max(1, maxpay),
+           mk=' '.join(mk), args=', '.join(args), chk=' '.join(chk), cap=prm['cap'], size=prm['size'], pos=prm['pos'], first=prm['first'], last=prm['last'], newn=prm['newn'],
+           capo=prm['capo'], sizeo=prm['sizeo'], ctor_v=ctor('v', 'CAP', 'A<char>(1)'), ctor_w=ctor('w', 'CAPW', 'A<char>(2)'), body=body)
+
+
+def run_history(u, r, ob, trace):
+    m = re.match(r'vector: (.*), allocator traits F=(\d+)', u.get('config', ''))
+    if not m:
+        return None
+    spec, F = m.group(1), int(m.group(2))
+    L = layout.Layout(spec)
+    if any(p.elem in 'tmx' for p in L.params):
+        return None
+    op = u['id'].split('.')[3] if len(u['id'].split('.')) > 3 else ''
+    cex = vf.cex_inputs(trace)
+    def num(name, default):
+        mm = re.match(r'(\d+)', cex.get(name, '') or '')
+        return int(mm.group(1)) if mm else default
+    capd = dict(x.split('=') for x in u.get('cdefs', []) if '=' in x)
+    cap = int(capd.get('CAPK', 3)); capo = int(capd.get('CAPK_O', cap))
+    size = min(num('g_pre.tsize', num('g_pre.count', cap)), cap)
+    prm = dict(cap=cap, capo=capo, size=size, sizeo=min(num('g_pre_o.tsize', num('g_pre_o.count', capo)), capo), pos=min(num('g_pos', 0), max(size - 1, 0)),
+               first=0, last=0, newn=min(num('g_new_n', cap + 2), 12), fs=[min(max(num('g_fs%d' % k, 2), 0), 6) for k in range(L.nfixed)])
+    prm['first'] = min(num('g_first', 0), size); prm['last'] = min(max(num('g_last', size), prm['first']), size)
+    if op == 'erase' and size == 0:
+        prm['size'] = size = 1
+    if op == 'pop_back' and size == 0:
+        prm['size'] = 1
+    src = _hist_prog(L, F, op, prm)
+    if src is None:
+        return None
+    with tempfile.TemporaryDirectory(dir=os.path.join(vf.BUILD)) as td:
+        open(os.path.join(td, 'replay.cpp'), 'w').write(src)
+        c = subprocess.run(['g++', '-std=c++17', '-DNDEBUG', '-I' + os.path.join(vf.REPO, 'src'), 'replay.cpp', '-o', 'replay'], cwd=td, capture_output=True, text=True)
+        if c.returncode != 0:
+            return {'reproduced': False, 'recipe': 'history', 'note': 'replay program does not compile: ' + c.stderr[-500:], 'inputs': prm}
+        try:
+            p = subprocess.run(['./replay'], cwd=td, capture_output=True, text=True, timeout=60)
+        except subprocess.TimeoutExpired:
+            return {'reproduced': True, 'recipe': 'history', 'inputs': prm, 'mismatches': ['replay program did not terminate']}
+    mism = [l for l in p.stdout.split('\n') if l.startswith('MISMATCH')]
+    if p.returncode not in (0, 1):
+        mism.append('replay program crashed (exit %s)' % p.returncode)
+    return {'reproduced': bool(mism), 'recipe': 'history', 'inputs': dict(prm, parameter_list=spec, allocator_traits=F, operation=op), 'mismatches': mism[:8]}
+
+
+_layout_run = run
+
+
+def run(u, r, ob, trace):
+    if u['id'].startswith('lay.'):
+        return _layout_run(u, r, ob, trace)
+    if u['id'].startswith('vec.'):
+        return run_history(u, r, ob, trace)
+    return None
